@@ -1819,21 +1819,21 @@ func runCtrl(job Job, res *JobResult) {
 	for _, r := range recs {
 		c := walFiles[r.file]
 		for i := 0; i < 12; i++ {
-			for _, v := range reducedValues(c[r.pos+i]) {
-				try(fmt.Sprintf("ctrl:%s@%d(entry %d header+%d)=0x%02x", filepath.Base(r.file), r.pos+i, r.off, i, v), r, r.pos+i, []byte{v})
+			// (entries carry wall-clock timestamps, so header CRC bytes differ between runs: XOR masks keep the
+			// number of images independent of the byte values)
+			for _, m := range []byte{0x01, 0x80, 0xff, 0x10, 0x55} {
+				try(fmt.Sprintf("ctrl:%s@%d(entry %d header+%d)^=0x%02x", filepath.Base(r.file), r.pos+i, r.off, i, m), r, r.pos+i, []byte{c[r.pos+i] ^ m})
 			}
 		}
-		for _, l := range []uint32{0, 1, uint32(r.plen) + 1, 0x7fffffff} {
+		for _, l := range []uint32{0, 1, uint32(r.plen) + 3, 0x7fffffff} {
 			var lb [4]byte
 			binary.BigEndian.PutUint32(lb[:], l)
 			try(fmt.Sprintf("ctrl:%s@%d(entry %d length)=0x%08x", filepath.Base(r.file), r.pos, r.off, l), r, r.pos, lb[:])
 		}
 		for _, i := range []int{0, r.plen / 2, r.plen - 1} {
 			p := r.pos + 12 + i
-			for _, v := range []byte{c[p] ^ 0x01, 0x00} {
-				if v != c[p] {
-					try(fmt.Sprintf("ctrl:%s@%d(entry %d payload+%d)=0x%02x", filepath.Base(r.file), p, r.off, i, v), r, p, []byte{v})
-				}
+			for _, m := range []byte{0x01, 0xff} {
+				try(fmt.Sprintf("ctrl:%s@%d(entry %d payload+%d)^=0x%02x", filepath.Base(r.file), p, r.off, i, m), r, p, []byte{c[p] ^ m})
 			}
 		}
 	}
